@@ -3,9 +3,10 @@
    ErrTxnTooBig); the harness replays every batch as the Begin/Modify/Commit labels of those
    transactions, so the theorems are about Sys.txn_modify / Sys.commit_entries / Lsm.mt_put. *)
 From Verif Require Import Bytes Keys Consts Spec Lsm Sys.
-From Verif Require SysProofs BatchProofs.
+From Verif Require SysProofs BatchProofs EntOrderProofs BatchSplitProofs.
 Open Scope N_scope.
 Import BatchProofs.
+Import BatchSplitProofs.
 
 (* the pending map holds, per key, the last accepted call *)
 Theorem C27_pending_is_last_write : forall x es k,
@@ -50,3 +51,215 @@ Theorem C27_splits_compose : forall L1 L2 s,
   fold_left mt_put (L1 ++ L2) s = fold_left mt_put L2 (fold_left mt_put L1 s).
 Proof. intros. apply fold_left_app. Qed.
 Print Assumptions C27_splits_compose.
+
+(* ------------------------------------------------------------------------------------------
+   SPLIT INVARIANCE.  batch.go: WriteBatch.handleEntry / Delete commit the internal transaction on
+   ErrTxnTooBig and re-apply the call on a fresh one, so the calls `es` of a batch are cut into
+   consecutive groups (`concat groups = es`), one internal transaction each:
+     run_batch groups tss s  =  for each group g_i with commit timestamp ts_i, in order:
+                                 x_i := modifies (fresh update txn) g_i;
+                                 fold_left mt_put (commit_entries x_i ts_i) into the memtable.
+   `tagged groups tss` is the call list with every call paired with its group's timestamp
+   (C27_tagged_is_call_list), `call_counts` = Txn.modify accepts the call (non-empty key without
+   the reserved prefix), `stamp_call (ts, e)` = the entry as stored.
+   ------------------------------------------------------------------------------------------ *)
+Theorem C27_tagged_is_call_list : forall groups tss,
+  length groups = length tss -> map snd (tagged groups tss) = concat groups.
+Proof. exact BatchSplitProofs.tagged_calls. Qed.
+Print Assumptions C27_tagged_is_call_list.
+
+(* the accepted calls of a fresh update transaction are the calls with an acceptable key *)
+Theorem C27_accepted_calls : forall g, accepted_calls batch_txn g = filter call_ok g.
+Proof. exact BatchSplitProofs.accepted_calls_batch. Qed.
+Print Assumptions C27_accepted_calls.
+
+(* ALL MODES: for any cut and any commit timestamps, key@version holds the LAST accepted call of
+   the whole batch whose stored entry (stamped with the timestamp of ITS group) has that key and
+   version; nothing of the batch there = the previous content *)
+Theorem C27_split_later_call_wins : forall groups tss s k v,
+  find_kv (run_batch groups tss s) k v =
+  match last_match (fun te => call_counts te && kv_match k v (stamp_call te)) (tagged groups tss) with
+  | Some te => Some (stamp_call te)
+  | None => find_kv s k v
+  end.
+Proof. exact BatchSplitProofs.batch_split_later_wins_tagged. Qed.
+Print Assumptions C27_split_later_call_wins.
+
+(* (a) one commit timestamp for every internal transaction (NewWriteBatchAt(ts); managed batches,
+   ts = 0): every key@version lookup answers as for the unsplit batch — which is the last
+   accepted call of the call list stored under that key@version ... *)
+Theorem C27_split_invariance_same_ts : forall groups ts s k v,
+  find_kv (run_batch groups (repeat ts (length groups)) s) k v =
+  find_kv (run_batch [concat groups] [ts] s) k v.
+Proof. exact BatchSplitProofs.batch_split_invariance_same_ts. Qed.
+Print Assumptions C27_split_invariance_same_ts.
+
+Theorem C27_same_ts_later_call_wins : forall groups ts s k v,
+  find_kv (run_batch groups (repeat ts (length groups)) s) k v =
+  match last_match (fun e => kv_match k v (stamp ts e)) (filter call_ok (concat groups)) with
+  | Some e => Some (stamp ts e)
+  | None => find_kv s k v
+  end.
+Proof. exact BatchSplitProofs.batch_same_ts_later_wins. Qed.
+Print Assumptions C27_same_ts_later_call_wins.
+
+(* ... and two cuts of one call list leave the very same memtable *)
+Theorem C27_two_splits_same_memtable : forall g1 g2 ts s,
+  concat g1 = concat g2 -> EntOrderProofs.ssorted s ->
+  run_batch g1 (repeat ts (length g1)) s = run_batch g2 (repeat ts (length g2)) s.
+Proof. exact BatchSplitProofs.batch_two_splits_same_ts. Qed.
+Print Assumptions C27_two_splits_same_memtable.
+
+(* (a') every call carries an explicit version (SetEntryAt / DeleteAt): neither the cut nor the
+   commit timestamps of the internal transactions matter *)
+Theorem C27_split_invariance_explicit : forall groups tss ts s,
+  length groups = length tss -> all_explicit groups -> EntOrderProofs.ssorted s ->
+  run_batch groups tss s = run_batch [concat groups] [ts] s.
+Proof. exact BatchSplitProofs.batch_split_invariance_explicit. Qed.
+Print Assumptions C27_split_invariance_explicit.
+
+(* (b) normal mode — strictly increasing commit timestamps above what the memtable holds for k,
+   no explicit versions: a reader at or above the last commit timestamp finds the LAST call on k
+   of the whole batch (up to the version it was stamped with), wherever the splits fell *)
+Theorem C27_split_normal_reader : forall groups tss s k rts,
+  length groups = length tss ->
+  all_ver0 groups -> increasing tss -> EntOrderProofs.ssorted s ->
+  (forall e ts, In e s -> e_key e = k -> In ts tss -> e_ver e < ts) ->
+  (forall ts, In ts tss -> ts <= rts) ->
+  option_map unver (src_get (run_batch groups tss s) k rts) =
+  match last_match (on_key k) (filter call_ok (concat groups)) with
+  | Some e => Some e
+  | None => option_map unver (src_get s k rts)
+  end.
+Proof. exact BatchSplitProofs.batch_split_normal_reader_view. Qed.
+Print Assumptions C27_split_normal_reader.
+
+Theorem C27_split_invariance_normal : forall g1 t1 g2 t2 s k rts,
+  concat g1 = concat g2 ->
+  length g1 = length t1 -> length g2 = length t2 ->
+  all_ver0 g1 -> increasing t1 -> increasing t2 -> EntOrderProofs.ssorted s ->
+  (forall e ts, In e s -> e_key e = k -> In ts (t1 ++ t2) -> e_ver e < ts) ->
+  (forall ts, In ts (t1 ++ t2) -> ts <= rts) ->
+  option_map unver (src_get (run_batch g1 t1 s) k rts) =
+  option_map unver (src_get (run_batch g2 t2 s) k rts).
+Proof. exact BatchSplitProofs.batch_split_invariance_normal. Qed.
+Print Assumptions C27_split_invariance_normal.
+
+(* the earlier calls on k that fell into earlier groups: the i-th group's last call on k is stored
+   at the i-th commit timestamp, and everything stored under k besides the entry the reader finds
+   is strictly older *)
+Theorem C27_split_normal_group_version : forall groups tss s i g ts k,
+  all_ver0 groups -> increasing tss -> nth_error groups i = Some g -> nth_error tss i = Some ts ->
+  find_kv (run_batch groups tss s) k ts =
+  match last_match (on_key k) (filter call_ok g) with
+  | Some e => Some (stamp ts e)
+  | None => find_kv s k ts
+  end.
+Proof. exact BatchSplitProofs.batch_split_normal_group_version. Qed.
+Print Assumptions C27_split_normal_group_version.
+
+Theorem C27_split_normal_older : forall groups tss s k e',
+  all_ver0 groups -> increasing tss -> EntOrderProofs.ssorted s ->
+  (forall e ts, In e s -> e_key e = k -> In ts tss -> e_ver e < ts) ->
+  last_match (on_key k) (stamped_calls groups tss) = Some e' ->
+  forall x, In x (run_batch groups tss s) -> e_key x = k -> x = e' \/ e_ver x < e_ver e'.
+Proof. exact BatchSplitProofs.batch_split_normal_older. Qed.
+Print Assumptions C27_split_normal_older.
+
+(* the link to the system model the correspondence replays (Begin / Modify* / Commit per internal
+   transaction): a batch transaction reads nothing, so Sys.txn_commit never refuses it, and the
+   memtable after the batch's commits is run_batch at the timestamps the commits used — in
+   managed mode the given ones, in normal mode nextTxnTs, nextTxnTs + 1, ... (increasing) *)
+Theorem C27_batch_commit_step : forall s t rts g cts,
+  let x := SysProofs.modifies (wb_txn rts) g in
+  let ts := if s_managed s then cts else s_next s in
+  let r := txn_commit s t x cts in
+  fst (fst r) = 0 /\
+  l_mt (s_db (snd r)) = fold_left mt_put (group_entries g ts) (l_mt (s_db s)) /\
+  s_managed (snd r) = s_managed s /\
+  s_next (snd r) = (if s_managed s || (match x_pend x with [] => true | _ => false end)
+                    then s_next s else s_next s + 1).
+Proof. exact BatchSplitProofs.wb_commit_step. Qed.
+Print Assumptions C27_batch_commit_step.
+
+Theorem C27_batch_is_sys_commits : forall groups s t rts ctss,
+  l_mt (s_db (sys_batch s t rts groups ctss)) =
+  run_batch groups (sys_batch_tss s t rts groups ctss) (l_mt (s_db s)).
+Proof. exact BatchSplitProofs.sys_batch_memtable. Qed.
+Print Assumptions C27_batch_is_sys_commits.
+
+Theorem C27_batch_tss_managed : forall groups s t rts ctss,
+  s_managed s = true -> length groups = length ctss -> sys_batch_tss s t rts groups ctss = ctss.
+Proof. exact BatchSplitProofs.sys_batch_tss_managed. Qed.
+Print Assumptions C27_batch_tss_managed.
+
+Theorem C27_batch_tss_normal : forall groups s t rts ctss,
+  s_managed s = false -> length groups = length ctss ->
+  (forall g, In g groups -> x_pend (SysProofs.modifies (wb_txn rts) g) <> []) ->
+  sys_batch_tss s t rts groups ctss = count_from (s_next s) (length groups) /\
+  increasing (count_from (s_next s) (length groups)).
+Proof. exact BatchSplitProofs.sys_batch_tss_normal_increasing. Qed.
+Print Assumptions C27_batch_tss_normal.
+
+(* what is NOT invariant.  Normal mode: the stored versions depend on the cut (a WriteBatch is not
+   atomic; the full key@version statement of (a) does not carry over) *)
+Theorem C27_split_normal_versions_refuted :
+  exists g1 t1 g2 t2 k v,
+    concat g1 = concat g2 /\ length g1 = length t1 /\ length g2 = length t2 /\
+    all_ver0 g1 /\ increasing t1 /\ increasing t2 /\
+    find_kv (run_batch g1 t1 []) k v <> find_kv (run_batch g2 t2 []) k v.
+Proof. exact BatchSplitProofs.batch_split_normal_versions_refuted. Qed.
+Print Assumptions C27_split_normal_versions_refuted.
+
+(* increasing commit timestamps mixed with explicit versions (WriteBatch.DeleteAt is not guarded
+   by managed mode): DeleteAt(k, 11); Set(k, 1) reads as deleted when unsplit at 10 and as 1 when
+   split at 10, 11 — `all_ver0` in (b) is necessary *)
+Theorem C27_split_mixed_refuted :
+  exists g1 t1 g2 t2 k rts,
+    concat g1 = concat g2 /\ length g1 = length t1 /\ length g2 = length t2 /\
+    increasing t1 /\ increasing t2 /\ (forall ts, In ts (t1 ++ t2) -> ts <= rts) /\
+    option_map unver (src_get (run_batch g1 t1 []) k rts) <>
+    option_map unver (src_get (run_batch g2 t2 []) k rts).
+Proof. exact BatchSplitProofs.batch_split_mixed_refuted. Qed.
+Print Assumptions C27_split_mixed_refuted.
+
+(* six calls on two keys, key@version repeated (k1@5 twice, k1@7 twice, k2@5 twice), managed
+   batch (commit timestamp 0): three cuts — among them one where a group's duplicateWrites hold
+   k1@5 and a LATER group writes k1@5 again — leave the memtable of the unsplit batch *)
+Example C27_split_example_managed :
+  let k1 := [107; 49] in let k2 := [107; 50] in
+  let a := mkE k1 5 0 0 0 [1] in let b := mkE k2 5 0 0 0 [2] in let c := mkE k1 7 0 0 0 [3] in
+  let d := mkE k1 5 0 0 0 [4] in let e := mkE k2 5 1 0 0 [] in let f := mkE k1 7 0 0 0 [6] in
+  let unsplit := run_batch [[a; b; c; d; e; f]] [0] [] in
+  unsplit = [f; d; e] /\
+  run_batch [[a; b]; [c; d]; [e; f]] [0; 0; 0] [] = unsplit /\
+  run_batch [[a; b; c]; [d]; [e; f]] [0; 0; 0] [] = unsplit /\
+  run_batch [[a]; [b; c; d; e]; [f]] [0; 0; 0] [] = unsplit.
+Proof. vm_compute. repeat split. Qed.
+
+(* the same with NewWriteBatchAt(9) and calls without explicit versions mixed in *)
+Example C27_split_example_at :
+  let k1 := [107; 49] in let k2 := [107; 50] in
+  let a := mkE k1 0 0 0 0 [1] in let b := mkE k2 9 0 0 0 [2] in let c := mkE k1 7 0 0 0 [3] in
+  let d := mkE k1 9 0 0 0 [4] in let e := mkE k2 0 1 0 0 [] in let f := mkE k1 7 0 0 0 [6] in
+  let unsplit := run_batch [[a; b; c; d; e; f]] [9] [] in
+  unsplit = [d; f; mkE k2 9 1 0 0 []] /\
+  run_batch [[a; b]; [c; d]; [e; f]] [9; 9; 9] [] = unsplit /\
+  run_batch [[a; b; c]; [d]; [e; f]] [9; 9; 9] [] = unsplit /\
+  run_batch [[a]; [b; c; d; e]; [f]] [9; 9; 9] [] = unsplit.
+Proof. vm_compute. repeat split. Qed.
+
+(* normal mode: six calls on two keys; the three cuts store different version histories, the
+   reader above the last commit sees the same: k1 = 6, k2 deleted (the last calls) *)
+Example C27_split_example_normal :
+  let k1 := [107; 49] in let k2 := [107; 50] in
+  let a := mkE k1 0 0 0 0 [1] in let b := mkE k2 0 0 0 0 [2] in let c := mkE k1 0 0 0 0 [3] in
+  let d := mkE k1 0 0 0 0 [4] in let e := mkE k2 0 1 0 0 [] in let f := mkE k1 0 0 0 0 [6] in
+  let view := fun m => map (fun k => option_map unver (src_get m k 50)) [k1; k2] in
+  let m1 := run_batch [[a; b; c; d; e; f]] [10] [] in
+  let m2 := run_batch [[a; b]; [c; d]; [e; f]] [10; 11; 12] [] in
+  let m3 := run_batch [[a; b; c]; [d]; [e; f]] [20; 30; 40] [] in
+  view m1 = [Some f; Some e] /\ view m2 = view m1 /\ view m3 = view m1 /\
+  (length m1 = 2 /\ length m2 = 5 /\ length m3 = 5)%nat /\
+  map e_ver m2 = [12; 11; 10; 12; 10].
+Proof. vm_compute. repeat split. Qed.
